@@ -27,7 +27,7 @@ MANIFEST = {
                   "Only ctts and stsc have builder methods or cached state in the pinned library (stts, stsz, stss, sdtp, stco, co64 are "
                   "public slices: their state IS the table). The unexported singleSampleDescriptionID is observed through "
                   "GetSampleDescriptionID(0). The builder theorems assume 1-based description ids (known finding C09-F5 otherwise). "
-                  "File.CopySampleData (the 'copied sample data' clause) is modelled and proved under C08. "
+                  "File.CopySampleData (the 'copied sample data' clause) is modelled and proved under C08. Here it is evaluated by the search only: in-memory and lazy mode with work buffers 0/1/2/3/7/32/4096 over an mdat with position-dependent bytes, against the concatenation of the expansion's sample bytes. "
                   "GetSampleNrAtTime is proved under the extra hypothesis that only a final single sample may have zero duration "
                   "(known finding C09-F3 otherwise).",
 }
